@@ -5,7 +5,11 @@
    spec/router/RouterTrace.tla               : TLC validates what the real router answered (binding B1/B2):
        every configuration / rule list TLC enumerates is built with the real router.NewRouters (and, for the
        determinism half of the property, through a RouterManager update history ending in the same configuration,
-       looked up from 8 goroutines) and every request of the universe is sent through MatchRoute/MatchAllRoutes."""
+       looked up from 8 goroutines) and every request of the universe is sent through MatchRoute/MatchAllRoutes.
+   spec/router/RouteScanSem.tla + RouteScan.tla + RouteScanTrace.tla : a lookup walking the rule list while the route
+       API updates it in place (lock model, defect switch ScanWithoutLock); TLC enumerates held-position x update
+       script schedules, the driver holds a real lookup at that rule (getter of a harness variable) while the
+       RouterManager runs the script; the answer must be the answer of one version."""
 import json, os, random, re
 from concurrent.futures import ThreadPoolExecutor
 import vlib
@@ -49,6 +53,10 @@ def run(ctx):
         main_runs = [ex.submit(vlib.run_tlc, ctx, "router", "VHostMatch", "VHostMatch%s.cfg" % suf, timeout=1500),
                      ex.submit(vlib.run_tlc, ctx, "router", "RouteMatch", "RouteMatch%s.cfg" % suf, workers=4, timeout=1500)]
         defect_runs = list(ex.map(defect_run, [("VHostMatch", d) for d in VH_DEFECTS] + [("RouteMatch", d) for d in RT_DEFECTS]))
+        scan_raw = os.path.join(ctx.tmp, "scan_raw.jsonl")
+        main_runs.append(ex.submit(vlib.run_tlc, ctx, "router", "RouteScan", "RouteScan%s.cfg" % suf, workers=2,
+                                   cases_to=scan_raw, timeout=900))
+        defect_runs.append(ex.submit(defect_run, ("RouteScan", "ScanWithoutLock")).result())
         for f in main_runs:
             ctx.add_tlc(f.result())
     ctx.cov["defect_switches_rejected"] = len(defect_runs)
@@ -131,6 +139,26 @@ def run(ctx):
 
     # ---------- 3. real code: replay and record
     binary = vlib.go_build("c04")
+
+    # concurrent in-place update part: lookups held at rule p of the list while the update script runs
+    scases = sorted((c for c in vlib.read_jsonl(scan_raw) if c.get("kind") == "scan"), key=lambda c: json.dumps(c, sort_keys=True))
+    if not scases or not any(c["sens"] for c in scases):
+        raise vlib.Inconclusive("RouteScan emitted no schedule that distinguishes a scan without the lock")
+    s_sens = [c for c in scases if c["sens"]]
+    s_rest = [c for c in scases if not c["sens"]]
+    s_pick = pick(s_sens, 170 if q else 1500) + pick(s_rest, 60 if q else 600)
+    rng.shuffle(s_pick)
+    scanfile = os.path.join(ctx.tmp, "scan_cases.jsonl")
+    with open(scanfile, "w") as fh:
+        for c in s_pick:
+            fh.write(json.dumps(c) + "\n")
+    strace = os.path.join(ctx.tmp, "scan.ndjson")
+
+    def scan_part():
+        vlib.run_driver(ctx, binary, ["-mode", "scan", "-cases", scanfile, "-trace", strace, "-grace", "15"], timeout=1800)
+        return vlib.validate_trace(ctx, "router", "RouteScanTrace", "RouteScanTrace.cfg", strace, timeout=1200)
+    scan_ex = ThreadPoolExecutor(max_workers=1)
+    scan_future = scan_ex.submit(scan_part)
     trace = os.path.join(ctx.tmp, "router.ndjson")
     vlib.run_driver(ctx, binary, ["-cases", casefile, "-trace", trace, "-lookers", "8"], timeout=1800)
 
@@ -191,10 +219,36 @@ def run(ctx):
             gi = lo + v["matched"]
             fail(gi, "trace-rejected:" + evs[gi]["ev"])
 
+    # concurrent part
+    sv = scan_future.result()
+    scan_ex.shutdown()
+    sevs = vlib.read_jsonl(strace)
+    ctx.cov["states"] += sv["distinct"]
+    ctx.cov["transitions"] += sv["generated"]
+    smm = mismatches(sv["text"])
+    if not sv["accepted"] and not smm and sv["matched"] is None:
+        raise vlib.Inconclusive("trace validation of RouteScanTrace did not complete:\n%s" % sv["text"][-1500:])
+    starts = [i for i, e in enumerate(sevs) if e["ev"] == "scfg"]
+
+    def scan_fail(i, kind):
+        st = max([x for x in starts if x <= i] or [0])
+        vlib.report_failure(ctx, "C04:%s" % kind, dict(line=i + 1, part="concurrent", history=sevs[st:i + 1]))
+    for line, kinds in sorted(smm.items()):
+        for kind in sorted(kinds):
+            scan_fail(line - 1, kind)
+    if sv["matched"] is not None and sv["matched"] < len(sevs):
+        scan_fail(sv["matched"], "trace-rejected:" + sevs[sv["matched"]]["ev"])
+    nsend = sum(1 for e in sevs if e["ev"] == "send")
+    ctx.cov["concurrent"] = {"schedules_enumerated": len(scases), "distinguishing": len(s_sens), "replayed": len(s_pick),
+                             "lookups_held": nsend, "updates_overtook_lookup": sum(1 for e in sevs if e["ev"] == "send" and e["overtook"]),
+                             "update_ops": sum(1 for e in sevs if e["ev"] == "supd")}
+    if starts:
+        ctx.sample({"concurrent_head": sevs[starts[0]:starts[0] + 6]})
+
     looks = [e for e in evs if e["ev"] == "look"]
-    ncfg = sum(1 for e in evs if e["ev"] == "cfg")
+    ncfg = sum(1 for e in evs if e["ev"] == "cfg") + len(starts)
     ctx.cov["traces_validated_against_impl"] = ncfg
-    ctx.cov["evaluations"] = len(looks) + sum(1 for e in evs if e["ev"] in ("cfg", "addroute", "removeall"))
+    ctx.cov["evaluations"] = len(looks) + sum(1 for e in evs if e["ev"] in ("cfg", "addroute", "removeall")) + nsend
     distinct = set()
     c = None
     for e in evs:
@@ -223,11 +277,15 @@ def run(ctx):
                        "header/method/variable and-or/RPC incl. compatibility form) x every request of the universe; quick tier: "
                        "all configurations with <=2 entries / rules, a VERIF_SEED sample of the 3-element ones; plus sampled "
                        "compositions and update histories (AddOrUpdateRouters over the previous case, AddRoute, RemoveAllRoutes) "
-                       "ending in the same configuration with every lookup done concurrently from 8 goroutines")
+                       "ending in the same configuration with every lookup done concurrently from 8 goroutines; concurrent part: "
+                       "old list (<=3 rules, every match pattern) x MatchRoute/MatchAllRoutes x rule at which the lookup is held x "
+                       "update script (RemoveAllRoutes + k AddRoute / AddRoute only / AddOrUpdateRouters) enumerated by TLC; all "
+                       "schedules that distinguish a walk without the lock, a sample of the others")
     ctx.cov["exhaustive"] = not sampled
     ctx.assumptions += [
         "request properties are put where the stream layers put them: x-mosn-host/-path/-method/-querystring variables and a CommonHeader map with lower-case keys",
         "regular expressions are limited to the menu of RouteSem.tla; its hand-written meaning is cross-checked against Go regexp on the value universe by the driver",
         "authorities are well-formed host[:port] names or empty (no IPv6 literals, no malformed host:port:port)",
+        "concurrent part: the held lookup goes on when the update script has returned or after 15 ms (updates waiting for the lookup's lock); a stalled scheduler can only hide a defect of that schedule, never raise an alarm",
         "DSL (CEL) rules, query-parameter matchers and MatchRouteFromHeaderKV are not covered",
         "an entry without port is an exact 'no port' entry, as the comment above findHighestPriorityIndex and TestVirtulHostWithPortMatch document"]
